@@ -8,7 +8,7 @@ the discard idioms are enumerated explicitly.
 """
 import re
 
-from .facts import children, walk, is_expr, callee_def, callee_name
+from .facts import children, walk, is_expr, callee_def, callee_name, peel
 
 # Result/Option methods -------------------------------------------------------
 # value of the call is (still) the fallible value, transformed
@@ -23,6 +23,35 @@ DISCARD = {"ok", "err", "unwrap_or", "unwrap_or_else", "unwrap_or_default", "is_
            "is_err_and", "map_or", "map_or_else", "iter", "into_iter", "unwrap_or_abort"}
 
 TRY_BRANCH = "std::ops::Try::branch"
+
+
+DIVERGING_CALLS = ("core::panicking::", "std::panicking::", "std::rt::begin_panic", "std::rt::panic_fmt", "core::panic", "std::process::exit", "std::process::abort",
+                   "core::option::expect_failed", "core::result::unwrap_failed")
+
+
+def _diverges(n):
+    """does evaluating this expression never produce a value (it ends in a panic / exit on every path)?"""
+    n = peel(n)
+    k = n.get("k")
+    if k == "Block":
+        b = n["block"]
+        for st in b.get("stmts", []):
+            if st.get("k") in ("Expr", "Semi") and _diverges(st.get("e") or {}):
+                return True
+        return bool(b.get("expr")) and _diverges(b["expr"])
+    if k == "Call":
+        cd = callee_def(n) or ""
+        return cd.startswith(DIVERGING_CALLS)
+    if k == "Match":
+        return bool(n.get("arms")) and all(_diverges(a["body"]) for a in n["arms"])
+    if k == "If":
+        return "else" in n and _diverges(n["then"]) and _diverges(n["else"])
+    return False
+
+
+def _closure_diverges(arg):
+    c = peel(arg)
+    return c.get("k") == "Closure" and _diverges(c["body"])
 
 
 class Use:
@@ -130,6 +159,9 @@ def consumer(node, parents):
                 name = par["name"]
                 if name in CHECKED:
                     return Use("checked", par, "." + name + "()", cont=(par, up))
+                if name == "unwrap_or_else" and par.get("args") and _closure_diverges(par["args"][0]):
+                    # `.unwrap_or_else(|e| panic!(…))` is `.expect(…)` with a hand-written message
+                    return Use("checked", par, ".unwrap_or_else(<diverging closure>)", cont=(par, up))
                 if name in DISCARD:
                     return Use("discard_method", par, "." + name + "()", cont=(par, up))
                 if name in PASS_THROUGH:
